@@ -30,7 +30,7 @@ pub struct BlobV {
 }
 
 pub struct Closure {
-    pub f: Rc<FnLit>,
+    pub f: std::sync::Arc<FnLit>,
     pub env: Env,
 }
 
